@@ -1050,6 +1050,9 @@ func lgFold(line []byte) []byte {
 					j := (n + 1<<30) >> 31
 					return n - j*(1<<31-1<<20)
 				}
+				if n < -(1 << 30) { // only a broken offset computation produces these: keep them negative and representable
+					return -(1 << 30) - ((-n) & (1<<20 - 1))
+				}
 				return n
 			}
 			return y
